@@ -23,6 +23,20 @@ theorem integ_segment (a b c d xj A B : Rat) :
       (B - A) * (segEval a b c d (A - xj) + 4 * segEval a b c d ((A + B) / 2 - xj) + segEval a b c d (B - xj)) / 6 := by
   unfold segStem segEval; ring
 
+/-- the stem function as coded before fix d3bfb03 (linear term `d·X` with the absolute abscissa) -/
+def segStemAbs (a b c d xj X : Rat) : Rat :=
+  a / 4 * (X - xj) ^ 4 + b / 3 * (X - xj) ^ 3 + c / 2 * (X - xj) ^ 2 + d * X
+
+/-- fix d3bfb03 is value-neutral over the rationals: the constant `d_j·x_j` by which the two stem
+    functions differ cancels in `stem(right) − stem(left)`, the only way `Integrate` uses them -/
+theorem stem_shift_noop (a b c d xj A B : Rat) :
+    segStem a b c d xj B - segStem a b c d xj A = segStemAbs a b c d xj B - segStemAbs a b c d xj A := by
+  unfold segStem segStemAbs; ring
+
+theorem segStem_left (a b c d xj : Rat) : segStem a b c d xj xj = 0 := by
+  unfold segStem; ring
+
+
 /-- `integ_deriv_upper`: difference-quotient identity.  The increment of the stem function is
     `δ·P(X)` plus `δ²` times a polynomial, so its derivative w.r.t. the upper limit is `P(X)`,
     the value `Interpolate` returns (and the higher terms are `Derivative(·,1..3)`). -/
